@@ -26,6 +26,7 @@ RULE = (
     'G={0.03,0.1,0.25,0.5,0.9,0.97}) x radii {0.5,1.0,0.45*w_min}; positions: for every symmetry image, 14 directions '
     'x rho in {0.5,0.98,1.02} x radius, wrapped, + 4^3 background grid; a second different site with the same label on the same analyzer; supercells (1,1,1),(2,1,1),(2,2,2),(1,2,3) (analyze_trajectory called twice on the same object, trajectory unchanged); '
     'evaluation = one (operation, position) pair judged; distinct = distinct (group, site, radius, count) outcomes'
+    '; per operation 8 probes 4e-9 A inside / outside the sphere (tie zone 1e-10 A)'
 )
 LEVEL_TEXT = (
     'Bounded-exhaustive over the listed space groups, site grid and radii with probes around every symmetry '
